@@ -2,9 +2,10 @@
 # seed_sweep.sh [jobs] — run every seeded change against the check of its property (each in its own scratch
 # worktree of /repo HEAD, see try_seed.sh; /repo itself is never touched); writes seeded/RESULTS.md.
 # Seeds whose patch no longer applies to /repo HEAD are listed as such.
+# SWEEP_ONLY=<egrep pattern on seed ids> restricts the run (results of other seeds from an earlier run are kept).
 cd /verif
 J=${1:-3}
-mkdir -p build/sweep; rm -f build/sweep/*.res
+mkdir -p build/sweep; [ -z "$SWEEP_ONLY" ] && rm -f build/sweep/*.res
 one() {
   S=$1; C=${S%%-*}
   out=$(tools/try_seed.sh $S $C 2>&1)
@@ -19,7 +20,7 @@ one() {
   echo "$S: $res / $kind"
 }
 export -f one
-ls -d seeded/C*/ | xargs -n1 basename | xargs -P $J -I{} bash -c 'one {}'
+ls -d seeded/C*/ | xargs -n1 basename | grep -E "${SWEEP_ONLY:-.}" | xargs -P $J -I{} bash -c 'one {}'
 {
   echo "| seed | property | quick check on the seeded tree | replay kind |"
   echo "|---|---|---|---|"
